@@ -350,6 +350,7 @@ def syntactic_rules(ctx):
 
 FO = 'sedfitter/filter_output.py'
 MUST_FIRE = [
+    ('round 12 twin: bool() of the wrong threshold guards the per-data-point test', [(FO, "        if (chi and bestchi < chi) or (cpd and bestcpd < cpd):", "        use_chi, use_cpd = bool(chi), bool(chi)\n        if (use_chi and bool(bestchi < chi)) or (use_cpd and bool(bestcpd < cpd)):")]),
     ('chi^2 per data point given a default threshold: it also applies when only the total chi^2 is asked for', [('sedfitter/filter_output.py', "                  cpd=None):", "                  cpd=3.):")]),
     ('write to both', [(FO, "            fout_good.write(info)\n        else:", "            fout_good.write(info)\n            fout_bad.write(info)\n        else:")]),
     ('condition inverted', [(FO, "if (chi and bestchi < chi) or (cpd and bestcpd < cpd):", "if not ((chi and bestchi < chi) or (cpd and bestcpd < cpd)):")]),
@@ -365,6 +366,7 @@ MUST_FIRE = [
     ('cpd compared with chi', [(FO, "(cpd and bestcpd < cpd)", "(cpd and bestcpd < chi)")]),
 ]
 MUST_SILENT = [
+    ('round 12: whether each threshold is given found once with bool(), the writer picked from a dictionary keyed by the outcome', [(FO, "        if (chi and bestchi < chi) or (cpd and bestcpd < cpd):", "        use_chi, use_cpd = bool(chi), bool(cpd)\n        if (use_chi and bool(bestchi < chi)) or (use_cpd and bool(bestcpd < cpd)):")]),
     ('criterion via a named flag', [(FO, "        if (chi and bestchi < chi) or (cpd and bestcpd < cpd):\n            fout_good.write(info)", "        good = (chi and bestchi < chi) or (cpd and bestcpd < cpd)\n        if good:\n            fout_good.write(info)")]),
     ('comparison written the other way', [(FO, "(chi and bestchi < chi)", "(chi and chi > bestchi)")]),
     ('branches exchanged with negation', [(FO, "        if (chi and bestchi < chi) or (cpd and bestcpd < cpd):\n            fout_good.write(info)\n        else:\n            fout_bad.write(info)",
